@@ -182,6 +182,18 @@ Definition dep_lt (a b : ty) : bool :=
   | _ => false
   end.
 
+(* DependentType.__type_order__ as a decision over the answers of the calls it makes: odep = isinstance(other, DependentType),
+   bo = typeorder(self.bound, other.bound), lt = self < other, gt = other < self, s1 = subclasscheck(other, self.bound),
+   s2 = subclasscheck(self.bound, other).  [dep_order] below is this decision with the calls (and their fuel) put back in
+   (Proofs/LeafDep.v dep_order_decides). *)
+Definition dep_decide (odep : bool) (bo : order) (lt gt s1 s2 : bool) : order :=
+  if odep then
+    match bo with
+    | SAME => if lt then LESS else if gt then MORE else NONE
+    | r => r
+    end
+  else if s1 || s2 then LESS else NONE.
+
 (* ---------- option helpers (None = out of fuel) ---------- *)
 Definition obind {X Y} (o : option X) (f : X -> option Y) : option Y :=
   match o with None => None | Some x => f x end.
